@@ -39,7 +39,10 @@
 (* Environment: the archive is a permutation of the entry set of the         *)
 (* scenario `sc`; it is produced lazily (each entry is chosen when the first *)
 (* scan reaches it), which enumerates every order without an initial state   *)
-(* per permutation.  The target is a store (blobs, manifests, tag).          *)
+(* per permutation.  The target is a store (blobs, manifests, tag), empty   *)
+(* or pre-filled as the scenario says (BlobHead / ManifestHead short cuts);  *)
+(* n / w count and label the accepted writes (the request log abstraction    *)
+(* the generator turns into a prediction).                                   *)
 (*                                                                          *)
 (* Switches (CONSTANTS): DrainBug = TRUE and LinkCode = TRUE describe the    *)
 (* code as it is (findings C09-1..3); FALSE describes the repaired design.   *)
